@@ -156,7 +156,7 @@ func (r *runner) run() {
 		procInfo = append(procInfo, map[string]any{"id": sc.Procs[i].ID, "scope": sc.Procs[i].Scope,
 			"parent": sc.Procs[i].Parent, "workers": sc.Procs[i].Workers, "cond": sc.Procs[i].Cond != ""})
 	}
-	r.log.Add("Reset", "scenario", sc.ID, "engine", sc.Engine, "srcs", srcIDs, "dsts", dstIDs, "n", srcN,
+	r.log.Add("Reset", "scenario", sc.ID, "engine", sc.Engine, "srcs", srcIDs, "dsts", dstIDs, "nrec", srcN,
 		"procs", procInfo, "window", sc.DLQ.Window, "threshold", sc.DLQ.Threshold,
 		"persister", sc.Persister, "features", sc.Features)
 
@@ -571,6 +571,15 @@ func (r *runner) ungateAll() {
 	}
 }
 
+func (r *runner) allAcked() bool {
+	for _, s := range r.world.Sources() {
+		if !s.AllAcked() {
+			return false
+		}
+	}
+	return true
+}
+
 func (r *runner) pipelineStatus() string {
 	pl, err := r.eng.Pipes.Get(r.ctx, PipelineID)
 	if err != nil {
@@ -586,8 +595,21 @@ func (r *runner) finalize() {
 	r.log.Add("OpenGates")
 	r.releaseAllGates()
 	r.ungateAll()
-	// let free-running flow complete: all records emitted and the log quiet
-	r.log.Quiesce(5*time.Millisecond, 3*time.Second)
+	// let the free-running flow complete: every record of every source acknowledged, or the
+	// pipeline no longer running, or the log quiet for a long while (something is stuck or failed)
+	deadline := time.Now().Add(4 * time.Second)
+	for time.Now().Before(deadline) {
+		if r.allAcked() {
+			break
+		}
+		if s := r.pipelineStatus(); r.started && s != "Running" && s != "Recovering" {
+			break
+		}
+		if r.log.Quiesce(400*time.Millisecond, 450*time.Millisecond) {
+			break
+		}
+	}
+	r.log.Quiesce(3*time.Millisecond, 500*time.Millisecond)
 	final := r.sc.Final
 	if final == "" {
 		final = "stopandwait"
@@ -613,7 +635,7 @@ func (r *runner) finalize() {
 			r.async("WaitPipeline", func() error { return r.eng.LC.WaitPipeline(PipelineID) })
 		}
 	}
-	deadline := time.Now().Add(hangBound)
+	deadline = time.Now().Add(hangBound)
 	r.mu.Lock()
 	calls := append([]*call(nil), r.calls...)
 	r.mu.Unlock()
